@@ -1,7 +1,8 @@
 /- C11 driver: op lines in, observable lines out (same format as props/C11/harness.cpp).
    `c11` runs the model of the repaired module.cpp, `c11 orig` the model of the code before
    patches/C11-01 (used only to validate the tie against an unpatched tree); `nofx` = run_in_backend.cpp
-   before patches/C11-06 (the default is the repaired file, in /repo since 6f7372e). -/
+   before patches/C11-06 (the default is the repaired file, in /repo since 6f7372e); `nocatch` = module.cpp before
+   patches/C11-07 (no roll-back when an exception leaves a child's initialize()/start()). -/
 import TboxModel.Util
 import TboxModel.C11.Model
 import TboxModel.C11.Arena
@@ -61,6 +62,7 @@ def stepOp (rb : Bool) (f : Forest) (ws : List String) : Option (Forest × List 
       let tag := if ok then "add-ok"
         else if (f.root? c).isNone then "add-fail-hasparent"
         else if ((f.find p).map fun m => m.info.st != .none) == some true then "add-fail-state"
+        else if ((f.root? c).map fun cr => cr.ids.contains p) == some true then "add-fail-cycle"
         else "add-fail-dupname"
       pure (f', ["B " ++ tag, line ok [] f'])
   | ["set", n, c, i, s] => do
@@ -153,7 +155,7 @@ def acts? : List String → Option (List Act)
   | [] => some []
   | w :: ws => do pure ((← act? w) :: (← acts? ws))
 
-def step (g : Bool) (a : AState) (ws : List String) : Option (AState × List String × Bool) :=
+def step (g x : Bool) (a : AState) (ws : List String) : Option (AState × List String × Bool) :=
   match ws with
   | ["new", n, nm, c, i, s] => do
       let n ← id? n; let nm ← bool? nm; let c ← bool? c; let i ← bool? i; let s ← bool? s
@@ -184,19 +186,21 @@ def step (g : Bool) (a : AState) (ws : List String) : Option (AState × List Str
       else if op == "fillinit" then
         -- js = {}; root.fillDefaultConfig(js); root.initialize(js)
         let σ1 := fillAll 1000 a.σ n
-        let r := aCall g fuel0 σ1 n .init true
+        let r := aCall g x fuel0 σ1 n .init true
         -- the filled object lives for this call only: the modules' own cfg flags are what later `init` ops use
         let σ2 := a.ids.foldl (fun acc k => let x := acc.get k; acc.set k { x with cfg := (a.σ.get k).cfg }) r.σ
         pure ({ a with σ := σ2 }, resLine a { r with σ := σ2 }, false)
       else if op == "destroy" then
-        let r := aDestroy g fuel0 a.σ n
+        let r := aDestroy g x fuel0 a.σ n
         pure ({ a with σ := r.σ }, resLine a r, false)
       else
         let ap ← api? op
-        let r := aCall g fuel0 a.σ n ap true
-        let r' := aCall (!g) fuel0 a.σ n ap true
+        let r := aCall g x fuel0 a.σ n ap true
+        let r' := aCall (!g) x fuel0 a.σ n ap true
         let differs := r.tr != r'.tr || r.ret != r'.ret || r.thrown != r'.thrown
-        pure ({ a with σ := r.σ }, resLine a r, differs)
+        let r2 := aCall g (!x) fuel0 a.σ n ap true
+        let differsX := r.tr != r2.tr || r.ret != r2.ret || r.thrown != r2.thrown
+        pure ({ a with σ := r.σ }, (if differsX then ["B catch-matters"] else []) ++ (if r.td then ["B teardown-throw"] else []) ++ resLine a r, differs)
   | _ => none
 end AState
 
@@ -335,7 +339,7 @@ def stepProc (fx rb : Bool) (st : DState) (ws : List String) : Option (DState ×
                 (if r.2 then [] else ["M after-main blocked=0 term=dfl errsig=0"]))
   | _ => none
 
-def stepLine (fx rb g : Bool) (st0 : DState) (ln : String) : DState × List String :=
+def stepLine (fx rb g x : Bool) (st0 : DState) (ln : String) : DState × List String :=
   let ws := words ln
   -- a new module starts with an empty vars() object
   let st : DState := match ws with
@@ -351,6 +355,16 @@ def stepLine (fx rb g : Bool) (st0 : DState) (ln : String) : DState × List Stri
       match stepProc fx rb st ws with
       | none => (st, ["bad-op"])
       | some r => r
+    else if ws.head? == some "json" then
+      -- `root->toJson(js)`: rendered from the arena (kept in step with the tree model in unscripted cases)
+      match ws with
+      | [_, n] =>
+        match id? n with
+        | some n =>
+          if st.quiet || !(st.a.σ n).alive || (st.a.σ n).hasParent then (st, ["bad-op"])
+          else (st, ["B json", "P json=" ++ (Arena.toMod 1000 st.a.σ n).jsonStr (fun k => (st.v.get k).map.length)])
+        | none => (st, ["bad-op"])
+      | _ => (st, ["bad-op"])
     else if !st.quiet && (ws.head?.map (·.startsWith "v")) == some true then
       match VOps.step st.a st.v ws with
       | none => (st, ["bad-op"])
@@ -361,14 +375,14 @@ def stepLine (fx rb g : Bool) (st0 : DState) (ln : String) : DState × List Stri
       | none => (st, ["bad-op"])
       | some r => ({ st with f := r.1 }, r.2.filter (fun l => !l.startsWith "B "))
     else if st.scripted || ws.head? == some "hook" || ws.head? == some "fillinit" then
-      match AState.step g st.a ws with
+      match AState.step g x st.a ws with
       | none => (st, ["bad-op"])
       | some (a', ls, differs) =>
         ({ st with a := a', scripted := true },
          ["B scripted" ++ (if differs then " guard-matters" else "") ++
             (if ls.any (fun l => l.startsWith "P ret=X") then " thrown" else "")] ++ ls)
     else
-      let ar := AState.step g st.a ws
+      let ar := AState.step g x st.a ws
       match stepOp rb st.f ws with
       | none => (st, (if ar.isSome && ws.head? != some "main" then ["M MODEL-MISMATCH tree=bad-op arena accepts"] else []) ++ ["bad-op"])
       | some r =>
@@ -383,4 +397,5 @@ def stepLine (fx rb g : Bool) (st0 : DState) (ln : String) : DState × List Stri
              (if tl == al then [] else ["M MODEL-MISMATCH tree=" ++ " | ".intercalate tl ++ " arena=" ++ " | ".intercalate al]) ++ r.2)
 
 def main (args : List String) : IO Unit :=
-  runDriver ({} : DState) (stepLine (!(args.contains "nofx")) (!(args.contains "orig")) (!(args.contains "noguard")))
+  runDriver ({} : DState) (stepLine (!(args.contains "nofx")) (!(args.contains "orig")) (!(args.contains "noguard"))
+    (!(args.contains "nocatch")))
